@@ -519,6 +519,8 @@ fn main() {
                 let mut p = NetflowParser::default();
                 if let Some(a) = op["allowed"].as_array() {
                     p.allowed_versions = a.iter().map(|x| nat(x) as u16).collect();
+                } else if op["allowed"].as_str() == Some("all") {
+                    p.allowed_versions = (0..=65535u16).collect();
                 }
                 parsers.insert(nat(&op["p"]), p);
                 "{\"ok\":true}".to_string()
